@@ -117,6 +117,7 @@ def run_exec(root: str, spec: dict[str, Any], roles: dict[str, str], knobs: dict
     entry = spec["entry"]
     cwd = os.path.join(root, spec["cwd"]) if spec.get("cwd") else root
     env = simenv.SimEnv(root, roles, knobs, faults, cwd=cwd)
+    env.manage_cwd = False  # run_history put the process into the sandbox once; nothing resets it between operations
     cap = Capture()
     writer = RecordingWriter(spec.get("writer_fail_at"))
     holder: dict[str, Any] = {}
@@ -136,7 +137,7 @@ def run_exec(root: str, spec: dict[str, Any], roles: dict[str, str], knobs: dict
             if text is None:
                 data = simenv.read_real(os.path.join(root, spec["src"]))
                 text = (data or b"").decode("utf-8", errors="replace")
-            ret = program.assemble_string_with_emitter(text, spec["src"], writer)
+            ret = program.assemble_string_with_emitter(text, src, writer)  # src: relative or absolute name (abs_paths)
         elif entry == "with_emitter":
             ret = program.assemble_with_emitter(src, writer)
         elif entry == "assemble":
@@ -252,6 +253,7 @@ def run_history(root: str, files: dict[str, bytes], roles: dict[str, str], ops: 
     import gc
 
     simenv.populate(root, files)
+    os.chdir(root)
     results: list[dict[str, Any]] = []
     for op in ops:
         # Programs released by earlier operations are really freed (the collector is otherwise off in
